@@ -59,7 +59,8 @@ try:
         print(p, kind, detail[:1], flush=True)
     dst = os.path.join(V, "benign", bid)
     os.makedirs(dst, exist_ok=True)
-    shutil.copy(os.path.join(src, "patch.diff"), os.path.join(dst, "patch.diff"))
+    if os.path.realpath(src) != os.path.realpath(dst):
+        shutil.copy(os.path.join(src, "patch.diff"), os.path.join(dst, "patch.diff"))
     meta = json.load(open(os.path.join(src, "meta.json"))) if os.path.exists(os.path.join(src, "meta.json")) else {}
     meta.update({"benign_id": bid, "suite": ran,
                  "repo_head": subprocess.check_output(["git", "-C", "/repo", "rev-parse", "--short", "HEAD"], text=True).strip(),
